@@ -19,6 +19,7 @@ PROPERTIES = {
     'C08': ['c08'],
     'C09': ['c09'],
     'C11': ['c11'],
+    'C12': ['c12'],
     'C15': ['c15'],
     'C17': ['c17'],
     'C20': ['c20'],
